@@ -265,16 +265,57 @@ def big_grid_leaves(rep, t2grids, leaves, rng, mine):
     t2data = core.repo_modules("t2data")
     work = tlc.scratch_dir("c09-")
     try:
+        if "C09_PhysUnchanged" in mine:
+            # a rename map given in the simulator's print form ('ab1 5' for 'ab105', as a listing shows names): the default
+            # fix_blocknames=True reads it as the names it stands for, and the network is unchanged under the new names
+            with core.quiet():
+                g = t2grids.t2grid()
+                g.add_rocktype(t2grids.rocktype("rk  1"))
+                for nm_ in ("ab105", "ab106", "ab 17"):
+                    g.add_block(t2grids.t2block(nm_, 10.0, g.rocktypelist[0], centre=np.array([1.0, 2.0, 3.0])))
+                g.add_connection(t2grids.t2connection([g.block["ab105"], g.block["ab106"]], 1, [1.0, 2.0], 5.0, 0.0))
+                g.add_connection(t2grids.t2connection([g.block["ab106"], g.block["ab 17"]], 3, [1.0, 1.0], 4.0, -1.0))
+                p0 = phys(g)
+                m_ = {"ab1 5": "cd2 7", "ab106": "cd208"}
+                try:
+                    g.rename_blocks(dict(m_))
+                    want = {"ab105": "cd207", "ab106": "cd208"}
+                    ren = lambda n: want.get(n, n)
+                    exp_b = dict((ren(n), v) for n, v in p0[0].items())
+                    exp_c = dict((frozenset(ren(n) for n in k_), (v[0], v[1], dict((ren(n), x) for n, x in v[2].items()),
+                                                                 dict((ren(n), x) for n, x in v[3].items()))) for k_, v in p0[1].items())
+                    bad = phys_difference((exp_b, exp_c), phys(g), 1e-12)
+                    if not bad and (sorted(g.block) != sorted(b.name for b in g.blocklist) or
+                                    sorted(g.connection) != sorted(tuple(b.name for b in c.block) for c in g.connectionlist)):
+                        bad = "lookups and lists disagree after the rename"
+                except Exception as ex:
+                    bad = "rename_blocks raised %r" % ex
+            rep.case(("rename-print-form",))
+            rep.traces += 1
+            if bad:
+                rep.violation("rename-map-in-print-form", "C09_PhysUnchanged", {"map": m_, "difference": bad})
         for k, (grid, geo) in enumerate(leaves):
             det = {"grid": "rectangular %d blocks, atmosphere type %d" % (grid.num_blocks, geo.atmosphere_type)}
             if "C09_PhysUnchanged" in mine:
+                if k % 2 == 0 and grid.num_blocks >= 3:
+                    # rock types whose names are numbers (other than their place in the list): a name is a name
+                    with core.quiet():
+                        for j_, nm_ in enumerate(("    2", "    1")):
+                            if nm_ not in grid.rocktype:
+                                grid.add_rocktype(t2grids.rocktype(nm_, permeability=[1e-15 * (j_ + 2)] * 3))
+                                grid.blocklist[-1 - j_].rocktype = grid.rocktype[nm_]
                 p0 = phys(grid)
                 try:
                     with core.quiet(), core.watchdog(120):
                         dat = t2data.t2data()
                         dat.grid = grid
                         f = os.path.join(work, "g%d.dat" % k)
-                        dat.write(f)
+                        if k % 3 == 1:
+                            # AUTOUGH2's extra-precision companion file carries centres and gravity cosines in full
+                            dat.simulator = "AUTOUGH2.2"
+                            dat.write(f, extra_precision=True)
+                        else:
+                            dat.write(f)
                         g2 = t2data.t2data(f).grid
                     bad = phys_difference(p0, phys(g2), 2e-4)
                 except Exception as ex:
